@@ -42,6 +42,8 @@ def run_case(job):
                 f.write(f"other_read_{k:07d}\tH{1 + k % 2}\t{1000 + k % 977}\tchr{1 + k % 22}\n")
             # the table ends with LF, with CRLF throughout, or without a terminator after its last row
             rows = ["\t".join(row) for row in tsv]
+            if rows and rows[0].startswith("#readname\t") and zlib.crc32(("hdr" + str(cid)).encode()) % 2:
+                rows = rows[1:]      # the header line is optional (lists filtered with grep / awk, lists joined per chromosome)
             h = zlib.crc32(("tsv" + str(cid)).encode()) % 4
             f.write(("\r\n".join(rows) + "\r\n") if h == 1 and rows else ("\n".join(rows) if h == 0 else "".join(r + "\n" for r in rows)))
         out = os.path.join(d, "out.gaf")
